@@ -485,6 +485,10 @@ def run(ctx):
     check_aliasing(ctx, wm)
     check_kinds_lengths(ctx, wm)
     check_restore(ctx, wm)
+    from .common import dt_weaver, DT_RULE
+    ctx.rule('C09.7', DT_RULE + '; in particular a grid built for the series (linspace) is not forced into the element type of the old abscissae (an integer '
+                        'abscissa would collapse neighbouring grid points into ties)')
+    dt_weaver(ctx, 'C09.7', wm, list(wm.methods))
     ctx.notes.append('NOT DECIDED: finiteness of values; strict monotonicity of x (numeric preconditions on arguments).')
     ctx.trust('written library table: view-returning vs fresh NumPy functions (twverif/alias.py); default for unlisted library functions: fresh',
               'fields hold ndarrays before each method (induction hypothesis); public arguments are array-likes')
